@@ -30,6 +30,30 @@ def _raw(t):
             "modes": [m.character for m in t.modes], "ordering": list(t.mode_ordering)}
 
 
+def _chain(out):
+    """C02: a returned tensor must be usable - converted, compared, pickled, fed to another kernel - without error."""
+    import pickle
+
+    import tensora
+
+    try:
+        d1 = out.to_dok()
+        n = out.order
+        ok = out == out
+        t2 = out.to_format("d" * n)
+        ok = ok and t2.to_dok() == d1
+        t3 = pickle.loads(pickle.dumps(out))
+        ok = ok and t3.to_dok() == d1 and t3.taco_indices == out.taco_indices and t3.taco_vals == out.taco_vals
+        idx = ",".join(f"i{k}" for k in range(n))
+        c = tensora.evaluate(f"c({idx}) = a({idx})", "d" * n, a=out)
+        ok = ok and c.to_dok() == d1
+        s = tensora.evaluate(f"c({idx}) = a({idx}) + a({idx})", "s" * n, a=out)
+        ok = ok and s.to_dok() == {k: 2 * v for k, v in d1.items()}
+        return "ok" if ok else "mismatch"
+    except Exception as e:  # noqa: BLE001
+        return "raised-" + type(e).__name__ + ": " + str(e)[:120]
+
+
 def op_eval_batch(task):
     """Run one kernel (through tensor_method, the path evaluate uses) on many input sets."""
     from tensora import tensor_method
@@ -50,7 +74,10 @@ def op_eval_batch(task):
         try:
             args = {name: _tensor(spec) for name, spec in inp["tensors"].items()}
             out = fn(**args)
-            outs.append({"cid": inp.get("cid"), "out": _raw(out)})
+            rec = {"cid": inp.get("cid"), "out": _raw(out)}
+            if task.get("chain"):
+                rec["chain"] = _chain(out)
+            outs.append(rec)
         except Exception as e:  # noqa: BLE001
             outs.append({"cid": inp.get("cid"), "exc": type(e).__name__, "msg": str(e)[:300]})
     return {"outs": outs}
